@@ -157,20 +157,30 @@ fn run_case(seed: u64, index: u64, rep: &mut Report) {
     // Ring thread.
     let start = Instant::now();
     let mut polls = 0u64;
+    // "Stuck" means: no operation resolved during a whole 5 s window of polling. A run that is
+    // merely slow (a loaded machine) keeps making progress and is given up to a minute.
     let mut timed_out = false;
+    let mut slow_only = false;
+    let mut window_start = Instant::now();
+    let mut window_resolved = resolved.load(Ordering::SeqCst);
     while done_threads.load(Ordering::SeqCst) < nthreads as usize {
         let _ = ring.poll(Some(Duration::from_micros(200)));
         polls += 1;
-        if start.elapsed() > Duration::from_secs(8) {
+        let now_resolved = resolved.load(Ordering::SeqCst);
+        if now_resolved != window_resolved {
+            window_resolved = now_resolved;
+            window_start = Instant::now();
+        } else if window_start.elapsed() > Duration::from_secs(5) {
             timed_out = true;
+            break;
+        }
+        if start.elapsed() > Duration::from_secs(60) {
+            timed_out = true;
+            slow_only = true;
             break;
         }
     }
     if timed_out {
-        // Keep polling a little with everything else idle, then let the workers go.
-        for _ in 0..50 {
-            let _ = ring.poll(Some(Duration::from_millis(2)));
-        }
         give_up.store(true, Ordering::SeqCst);
     }
     for w in workers {
@@ -207,6 +217,8 @@ fn run_case(seed: u64, index: u64, rep: &mut Report) {
         if !missing.is_empty() {
             found.push(("C04", "real:submission-lost".into(), format!("writes that resolved with Ok but never reached the pipe: {missing:?} (queue of {sq_size}, {nthreads} submitters)")));
         }
+    } else if timed_out && slow_only {
+        rep.count("c04real_inconclusive_timeouts", 1);
     } else if timed_out {
         // A thread still waits for an operation the kernel has executed: its completion or wake-up was lost.
         let mut stuck_done = Vec::new();
